@@ -73,6 +73,11 @@ def gen_start(rng: random.Random, now_us: int, young_ok: bool = True) -> str:
         ages = [1, 5, 30, 61, 600] + ages
     age_s = rng.choice(ages)
     age_us = rng.randrange(int(age_s * 0.5e6), int(age_s * 1e6) + 1)
+    if rng.random() < 0.15:
+        # ages at which a decode time (age x track timescale) crosses a field-width boundary
+        width = rng.choice([31, 32, 32, 33])
+        ts = rng.choice([240, 1000, 44100, 48000, 90000])
+        age_us = max(1_000_000, (1 << width) * 1_000_000 // ts + rng.randrange(-90_000_000, 90_000_001))
     ast = max(now_us - age_us, 1_000_000)
     ast -= ast % 1_000_000 if rng.random() < 0.8 else 0
     off = rng.choice([0, 0, 0, 60, -300, 330, 765, -720])
